@@ -1001,36 +1001,86 @@ class FileRT(Base):
             c_rows(mem, E), c_rows(back, E), zl(cnt), rtm)
 
 
+BLOCKS = [65536, 1 << 20, 4 << 20, 16 << 20]        # block sizes a reader might plausibly use
+
+
 class FileLong(Entry):
-    """a pair file with more rows than any plausible reader block (> 2^14, 2^15, 2^16 rows): all pairs
-    of two small grids (indices stay small), written with file= and read back with read_pairs"""
+    """pair files larger than any plausible reader block: all pairs of two small grids (indices stay
+    small) at radius 180, written with file= and read back with read_pairs / HTM.read.
+    judge = full:    every row goes through Coq (v_file_long), up to 65792 rows;
+    judge = sampled: files of 1.4 MB and 4.4 MB (quick, thorough) and 17 MB (thorough), i.e. several blocks of
+                     64 KiB, 1 MiB, 4 MiB, 16 MiB: the complete comparison with the in-memory rows is
+                     decided here on exact values; Coq judges the count, the first and last rows and
+                     the rows around every block boundary (v_file_sampled)."""
     name = "file_long"
 
     def cases(self, ctx, round=0):
         if round:
             return []
         r = ctx.rng
-        sizes = [(129, 128)] if ctx.quick() else [(129, 128), (182, 181), (257, 256)]
+        sizes = ([(231, 229, "sampled"), (411, 409, "sampled")] if ctx.quick()
+                 else [(129, 128, "full"), (257, 256, "full"), (231, 229, "sampled"), (411, 409, "sampled"), (811, 809, "sampled")])
         cs = []
-        for n1, n2 in sizes:
+        for n1, n2, judge in sizes:
             ra0, dec0 = r.uniform(20, 340), r.uniform(-50, 50)
             cs.append({"ra1": [ra0 + 0.01 * i for i in range(n1)], "dec1": [dec0 + 0.003 * (i % 7) for i in range(n1)],
                        "ra2": [ra0 + 0.01 * j + 0.004 for j in range(n2)], "dec2": [dec0 - 0.002 * (j % 5) for j in range(n2)],
                        "radius": 180.0, "scale": 180.0, "depth": r.choice([1, 3]), "maxmatch": r.choice([0, -1, n2 + 1]),
-                       "via": r.choice(["htm", "matcher"]), "layout": "plain", "family": "longfile:%d" % (n1 * n2)})
+                       "via": r.choice(["htm", "matcher"]), "layout": "plain", "judge": judge,
+                       "family": "longfile:%s:%d" % (judge, n1 * n2)})
         return cs
 
     def impl(self, c):
-        return FileRT.impl(self, c)
+        out = FileRT.impl(self, c)
+        if c.get("judge") != "sampled":
+            return out
+        if out["mem"][0] != "ok" or out["file"][0] != "ok" or out["count"][0] != "ok":
+            # keep the replay small: the first rows and the row counts are enough to see what happened
+            for k_ in ("mem", "file"):
+                if out[k_][0] == "ok":
+                    out["n" + k_] = len(out[k_][1])
+                    out[k_] = ("ok", out[k_][1][:20])
+            return out
+        mem, back = out["mem"][1], out["file"][1]
+        ok, why = True, ""
+        if len(mem) != len(back):
+            ok, why = False, "%d rows in memory, %d rows read back" % (len(mem), len(back))
+        else:
+            for n, ((a, b, x), (a2, b2, x2)) in enumerate(zip(mem, back)):
+                if a != a2 or b != b2 or float("%.16g" % x) != x2:
+                    ok, why = False, "row %d: memory %r, file %r" % (n, (a, b, x), (a2, b2, x2))
+                    break
+        # byte offset of every row as fprintf("%ld %ld %.16g\n") writes it
+        pos, offs = 0, []
+        for a, b, x in mem:
+            offs.append(pos)
+            pos += len("%d %d %.16g\n" % (a, b, x))
+        idx = set(range(min(3, len(mem)))) | set(range(max(0, len(mem) - 3), len(mem)))
+        import bisect
+        for B in BLOCKS:
+            ks = list(range(1, pos // B + 1))
+            if len(ks) > 24:
+                ks = ks[:16] + ks[-8:]
+            for k_ in ks:
+                n = bisect.bisect_right(offs, k_ * B) - 1          # the row that contains byte k*B
+                idx.update(t for t in (n - 1, n, n + 1) if 0 <= t < len(mem))
+        idx = sorted(idx)
+        return {"mem": ("ok", [mem[t] for t in idx if t < len(mem)]), "file": ("ok", [back[t] for t in idx if t < len(back)]),
+                "count": out["count"], "bytes": out["bytes"], "predicted_bytes": pos, "nrows": len(mem), "nback": len(back),
+                "full_ok": ok, "why": why, "positions": len(idx)}
 
     def term(self, c, out):
         if out["mem"][0] != "ok" or out["count"][0] != "ok" or out["file"][0] != "ok":
             return "3"
         mem, back, cnt = out["mem"][1], out["file"][1], out["count"][1]
-        if not rows_printable(mem) or not rows_printable(back) or len(mem) != len(c["ra1"]) * len(c["ra2"]):
+        nrows = out.get("nrows", len(mem))
+        if not rows_printable(mem) or not rows_printable(back) or nrows != len(c["ra1"]) * len(c["ra2"]):
             return "3"          # a 180-degree match without limit returns every pair
+        if c.get("judge") == "sampled" and not out["full_ok"]:
+            return "3"          # the complete comparison failed (out["why"])
         rts = [float("%.16g" % x) for _, _, x in mem]
         E = scale_exp(c, [x for _, _, x in mem] + [x for _, _, x in back] + rts)
+
         def chunks(items):
             # a list literal nests as deep as it is long (parser stack): concatenate literals of 1000
             items = list(items)
@@ -1038,6 +1088,8 @@ class FileLong(Entry):
 
         def rws(rows):
             return chunks("rowi %d %d %s" % (a, b, limbs(_units(x, E))) for a, b, x in rows)
+        if c.get("judge") == "sampled":
+            return "v_file_sampled %s %s %s %s %s" % (rws(mem), rws(back), chunks(limbs(_units(x, E)) for x in rts), zl(nrows), zl(cnt))
         return "v_file_long %s %s %s %s" % (rws(mem), rws(back), chunks(limbs(_units(x, E)) for x in rts), zl(cnt))
 
     def nontrivial(self, c, out):
